@@ -13,7 +13,7 @@ use crate::ops::{Op, Step, StepOut};
 use crate::run::{sample_trace, Prop, Run, Violation};
 use crate::world::Snap;
 use grin_util::ToHex;
-use grin_wallet_libwallet::{TxLogEntryType, WalletInfo};
+use grin_wallet_libwallet::{OutputStatus, TxLogEntryType, WalletInfo};
 use std::collections::{BTreeMap, BTreeSet};
 use uuid::Uuid;
 
@@ -40,6 +40,20 @@ pub struct C05 {
 	fresh: BTreeSet<usize>,
 	pre: Option<(usize, Snap)>,
 	focus: Option<Focus>,
+	/// wallets that reserved an output while it was still Unconfirmed (minimum
+	/// confirmations 0): the next refresh marks it Spent (known finding
+	/// rollback_outputs:unconfirmed_input_lost, same root)
+	spent_unconfirmed: BTreeSet<usize>,
+	/// scripted: a send without change is mined and cancelled before any refresh
+	exact: Option<Exact>,
+	exacts_left: u32,
+}
+
+struct Exact {
+	a: usize,
+	b: usize,
+	stage: u32,
+	d: Option<Uuid>,
 }
 
 fn out_lines(s: &Snap) -> Vec<String> {
@@ -87,6 +101,9 @@ impl C05 {
 			fresh: BTreeSet::new(),
 			pre: None,
 			focus: None,
+			spent_unconfirmed: BTreeSet::new(),
+			exact: None,
+			exacts_left: if run.rng.chance(1, 3) { 1 } else { 0 },
 		}
 	}
 
@@ -374,12 +391,84 @@ impl C05 {
 	}
 }
 
+impl C05 {
+	fn exact_step(&mut self, run: &mut Run) -> Option<Step> {
+		let r = self.exact.as_mut()?;
+		let deal = r.d.and_then(|i| run.model.deal_of(&i)).map(|d| run.model.deals[d].clone());
+		let op = match r.stage {
+			0 => Op::Refresh { w: r.a },
+			1 => {
+				// spend the smallest spendable output exactly: no change output
+				let snap = run.ex.world.snap(r.a);
+				let tip = run.ex.world.chain.height();
+				let acct = snap.acct_path(&snap.active)?;
+				let v = snap
+					.outputs
+					.iter()
+					.filter(|o| {
+						o.root_key_id == acct
+							&& o.status == OutputStatus::Unspent
+							&& o.lock_height <= tip && o.height < tip
+					})
+					.map(|o| o.value)
+					.min()?;
+				let fee = grin_core::libtx::tx_fee(1, 1, 1);
+				if v <= fee + 1 {
+					return None;
+				}
+				let mut a = crate::ops::SendArgs::simple(v - fee);
+				a.min_conf = 1;
+				a.max_outputs = 500;
+				run.cov.probe("send_without_change_scripted");
+				Op::InitSend { w: r.a, args: a }
+			}
+			2 => Op::Receive { w: r.b, m: deal.as_ref()?.m1, dest: None, enc: crate::ops::Enc::Mem },
+			3 => Op::Lock { w: r.a, m: deal.as_ref()?.m1 },
+			4 => Op::Finalize { w: r.a, m: deal.as_ref()?.m2?, foreign: false },
+			5 => Op::Post { w: r.a, m: deal.as_ref()?.m3? },
+			6 => Op::Mine { w: None, n: 1, txs: true },
+			7 => {
+				// no refresh in between: the wallet still believes the entry outstanding
+				if deal.as_ref()?.mined.is_some() {
+					run.cov.probe("cancel_of_mined_send_before_any_refresh");
+				}
+				Op::Cancel { w: r.a, m: Some(deal.as_ref()?.m1), id: None }
+			}
+			_ => return None,
+		};
+		r.stage += 1;
+		Some(Step::new(op))
+	}
+
+}
+
 impl Prop for C05 {
 	fn id(&self) -> &'static str {
 		"C05"
 	}
 
 	fn next(&mut self, run: &mut Run) -> Option<Step> {
+		if self.exact.is_some() {
+			match self.exact_step(run) {
+				Some(s) => return Some(s),
+				None => self.exact = None,
+			}
+		}
+		if !self.gen.in_setup() && self.gen.setup_done && self.focus.is_none() && self.exacts_left > 0 && run.rng.chance(1, 6) {
+			let nw = run.ex.world.wallets.len();
+			if nw >= 2 && !run.ex.world.chain.is_down() {
+				let a = run.rng.idx(nw);
+				let b = (a + 1 + run.rng.idx(nw - 1)) % nw;
+				if run.ex.world.is_open(a) && run.ex.world.is_open(b) {
+					self.exacts_left -= 1;
+					self.exact = Some(Exact { a, b, stage: 0, d: None });
+					if let Some(s) = self.exact_step(run) {
+						return Some(s);
+					}
+					self.exact = None;
+				}
+			}
+		}
 		if !self.gen.in_setup() && self.gen.setup_done {
 			if self.focus.is_some() {
 				if let Some(s) = self.focus_next(run) {
@@ -433,6 +522,30 @@ impl Prop for C05 {
 	fn after(&mut self, run: &mut Run, step: &Step, out: &StepOut) -> Vec<Violation> {
 		let mut v = vec![];
 		self.gen.feedback(run, step, out);
+		if let Some(r) = self.exact.as_mut() {
+			if let (Op::InitSend { .. }, Some(m)) = (&step.op, out.new_msg) {
+				if r.stage == 2 {
+					r.d = Some(run.ex.msgs[m].slate.id);
+				}
+			}
+			if !out.ok && !matches!(step.op, Op::Refresh { .. } | Op::Mine { .. } | Op::Cancel { .. }) {
+				self.exact = None;
+			}
+		}
+		if let (Op::Lock { w, .. }, Some((pw, pre))) = (&step.op, &self.pre) {
+			if out.ok && pw == w && run.ex.world.is_open(*w) {
+				let post = run.ex.world.snap(*w);
+				let reserved_unconfirmed = post.outputs.iter().any(|o| {
+					o.status == OutputStatus::Locked
+						&& pre.outputs.iter().any(|p| {
+							p.key_id == o.key_id && p.mmr_index == o.mmr_index && p.status == OutputStatus::Unconfirmed
+						})
+				});
+				if reserved_unconfirmed {
+					self.spent_unconfirmed.insert(*w);
+				}
+			}
+		}
 		// focus bookkeeping (generation only; harmless in replay)
 		if let Some(f) = self.focus.as_mut() {
 			if f.started && f.deal.is_none() {
@@ -537,6 +650,16 @@ impl Prop for C05 {
 							));
 						}
 						Some((_, confirmed, ty)) => {
+							// the transaction was on chain when cancel_tx was called and the node
+							// answered: the refresh cancel_tx starts with learns that, so the
+							// entry is a confirmed one however stale the wallet was before
+							let mined_before = target
+								.as_ref()
+								.and_then(|(sid, _, _)| run.model.deal_of(sid))
+								.map(|d| run.model.deals[d].mined.is_some())
+								.unwrap_or(false) && step.node_fail.is_none()
+								&& step.fault.is_none()
+								&& !run.ex.world.chain.is_down();
 							let class = if *confirmed {
 								Some("confirmed")
 							} else {
@@ -544,6 +667,9 @@ impl Prop for C05 {
 									TxLogEntryType::ConfirmedCoinbase => Some("coinbase"),
 									TxLogEntryType::TxSentCancelled
 									| TxLogEntryType::TxReceivedCancelled => Some("already_cancelled"),
+									TxLogEntryType::TxSent | TxLogEntryType::TxReceived if mined_before => {
+										Some("confirmed_on_chain_before_the_call")
+									}
 									_ => None,
 								}
 							};
@@ -586,9 +712,18 @@ impl Prop for C05 {
 								.chain(post.tx_proj().into_iter())
 								.collect();
 							if a != b {
+								// the embedded refresh is not a no-op for a wallet that reserved
+								// a still-unconfirmed output: that is the listed finding
+								let only_locked_to_spent = b.iter().filter(|x| !a.contains(x)).all(|x| x.contains("|Spent|"))
+									&& a.iter().filter(|x| !b.contains(x)).all(|x| x.contains("|Locked|"));
+								let sig = if self.spent_unconfirmed.contains(pw) && only_locked_to_spent {
+									"rollback_outputs:unconfirmed_input_lost".to_owned()
+								} else {
+									format!("refused_cancel_changed_state:{}", class)
+								};
 								v.push(run.viol(
 									"refusals",
-									&format!("refused_cancel_changed_state:{}", class),
+									&sig,
 									format!(
 										"wallet {}: refused cancel ({}) changed the wallet: {:?}",
 										pw,
